@@ -157,7 +157,9 @@ func c09Case(w *fw.W, idx int, r *fw.Rand) {
 	if err != nil {
 		// generated states hold only representable values, except cycles built by the random part
 		w.Count("snapshot_errors", 1)
-		if !strings.Contains(err.Error(), "循环引用") {
+		cv := CanonVars(a)
+		nonFinite := strings.Contains(cv, "f7ff0000000000000") || strings.Contains(cv, "ffff0000000000000") || strings.Contains(cv, "fNaN")
+		if !strings.Contains(err.Error(), "循环引用") && !nonFinite {
 			w.Violate(idx, "json", "json|snapshot-error", desc, "a representable state failed to serialise: "+err.Error(), nil)
 		}
 		return
